@@ -33,6 +33,7 @@ def normalise_loop(body):
 class C10(PropBase):
     pid = "C10"
     coq_dirs = ["Base", "C09", "C10"]
+    translators = []
     bins = ["c10"]
     impl_timeout = 600
     rule = ("case = input bytes (run-length encoded) + reader schedule (sizes of successive read() results); exhaustive: every single "
